@@ -413,6 +413,32 @@ func (ch c02) Run(c *core.Ctx) {
 			}
 		}
 	}
+	// (h) handlers that quote client-supplied text back: the statement's error carries the query text the
+	// parser was handed (kept, not copied) and is raised at Execute, after a Bind of about the same size
+	// full of zero bytes has come in
+	if c.Batch == 1%ch.Batches(c.Tier) && c.Begin(3700000) {
+		envBig := hs.Start(hs.Parse, wire.MessageBufferSize(1<<20))
+		echo := &hs.Prog{Stmts: []*hs.Stmt{{ID: "echo", EchoQuery: true, Params: []oid.Oid{oid.T_bytea}}}}
+		for _, n := range []int{100, 3000, 4096, 5000, 9000, 20000, 40000, 66000, 70000, 140000, 300000} {
+			conn := envBig.Dial(&hs.Sess{Default: func(string) *hs.Prog { return echo }})
+			conn.NoLog = true
+			in := pg.Startup([][2]string{{"user", "u"}})
+			in = append(in, pg.Parse("", "select "+strings.Repeat("q", n), nil)...)
+			in = append(in, pg.Bind("", "", []int16{1}, [][]byte{make([]byte, n-20)}, nil)...)
+			in = append(append(in, pg.Execute("", 0)...), pg.Sync()...)
+			in = append(in, pg.Query("select "+strings.Repeat("s", n))...)
+			conn.Send(append(in, pg.Terminate()...))
+			conn.CloseWrite()
+			if !conn.WaitClosed() {
+				c.Inconclusive("connection did not close (C02 echo workload)")
+				return
+			}
+			c.Count("echoed_query_texts", 1)
+			c.Eval(fmt.Sprintf("echo %d", n), true)
+			strict(conn, fmt.Sprintf("error quoting a query text of %d bytes after a Bind of the same size", n), map[string]any{"workload": "echoed query text", "bytes": n})
+		}
+		envBig.Stop()
+	}
 	// (f) writes interrupted half-way: the k-th transport Write of a canonical session takes half of its
 	// bytes and returns a temporary (timeout) error, for every k. Whether the server gives the connection
 	// up or completes the message, what the client has received is whole messages and, only at the very
